@@ -74,6 +74,40 @@ impl From<std::io::Error> for crate::anyhow::Error {
 }
 }
 
+// ---- trusted model of the log file itself (db::open) ---------------------------------------------------------
+verus! {
+/// bytes of the file on disk
+pub uninterp spec fn fcontent(f: &std::fs::File) -> Seq<u8>;
+/// a File opened for append: everything in it counts as written through it (appends go to the end)
+pub broadcast axiom fn ax_written_file(f: &std::fs::File)
+    ensures #[trigger] vx_written(f) == fcontent(f);
+/// R9 wrappers (trusted; contracts are the std documentation restricted to what db::open relies on)
+/// what is on disk under a path when db::open is entered
+pub uninterp spec fn disk(path: &std::path::Path) -> Seq<u8>;
+#[verifier::external_body]
+pub fn vx_open_rw_append(path: &std::path::Path) -> (r: std::io::Result<std::fs::File>)
+    ensures r is Ok ==> fcontent(&r->Ok_0) == disk(path)
+{ std::fs::OpenOptions::new().read(true).append(true).open(path) }
+#[verifier::external_body]
+pub fn vx_file_create(path: &std::path::Path) -> (r: std::io::Result<std::fs::File>)
+    ensures r is Ok ==> fcontent(&r->Ok_0).len() == 0
+{ std::fs::File::create(path) }
+/// BufReader::new(&mut file) on a freshly opened file: reads start at offset 0; reading does not change the content
+#[verifier::external_body]
+pub fn vx_bufreader_new<'a>(f: &'a mut std::fs::File) -> (r: std::io::BufReader<&'a mut std::fs::File>)
+    ensures vx_unread(&r) == fcontent(old(f)), vx_consumed(&r) == 0, fcontent(final(f)) == fcontent(old(f))
+{ std::io::BufReader::new(f) }
+#[verifier::external_body]
+pub fn vx_file_len(f: &std::fs::File) -> (r: std::io::Result<u64>)
+    ensures r is Ok ==> r->Ok_0 == fcontent(f).len()
+{ Ok(f.metadata()?.len()) }
+#[verifier::external_body]
+pub fn vx_set_len(f: &mut std::fs::File, n: u64) -> (r: std::io::Result<()>)
+    requires n <= fcontent(old(f)).len()
+    ensures r is Ok ==> fcontent(final(f)) == fcontent(old(f)).take(n as int), r is Err ==> fcontent(final(f)) == fcontent(old(f))
+{ f.set_len(n) }
+}
+
 // `==` / `!=` on byte slices is element-wise equality (vstd routes it through PartialEqSpec, which it leaves
 // unspecified for [u8]): trusted.
 pub mod vx_slice_eq { use vstd::prelude::*; use vstd::std_specs::cmp::PartialEqSpec;
